@@ -135,6 +135,9 @@ def match_known(known, pid, v):
                 continue
         elif cls == "any":
             pass
+        elif cls == "sinc:position-tie-or-any":
+            if v.get("clause") != "streams-differ-at-position-tie" and v.get("class") != "sinc:position-tie":
+                continue
         else:
             if v.get("class") != cls:
                 continue
@@ -1124,3 +1127,707 @@ class C15(Prop):
                         "model_bit_exact_checks": len([1 for x in mqi if x[1] in ("scalar", "sse")])},
                "samples": samples}
         return {"coverage": cov, "disagreements": disag[:5], "violations": viols[:5], "notes": notes}
+
+
+# ------------------------------------------------------------------------------------------ C03 / C04 / C06(stale) shared
+def valid_mix(self, rng, n, kinds=gen.ALL, long=False):
+    hs = []
+    for i in range(n):
+        c = rng.random()
+        rc = "none" if c < 0.35 else ("calm" if c < 0.7 else "any")
+        osf1 = False
+        cfg = gen.gen_cfg(rng, kinds=kinds, max_chunk=600, probe=rng.random() < 0.7)
+        if cfg.kind in ("sincin", "sincout") and rng.random() < 0.04:
+            # constructor-accepted but broken configuration: Cubic/Quadratic with oversampling_factor 1 (finding D12)
+            p = cfg.line.split()
+            p[4] = str(rng.choice([0, 1]))
+            p[6] = "1"
+            cfg.line = " ".join(p)
+            osf1 = True
+        h = gen.gen_valid_history(rng, cfg, rng.randint(3, 60 if long else 36), ratio_changes=rc,
+                                  masks=rng.choice(["none", "const", "vary"]))
+        h.meta["osf1_poly"] = osf1
+        hs.append(h)
+    return hs
+
+
+@register
+class C03(Prop):
+    pid = "C03"
+    rule = ("valid histories only (buffers >= advertised sizes, in-range stepped and ramped ratio changes, valid chunk-size "
+            "changes, partial/flush calls, wrappers, resets, masks) on all seven types x {f32,f64}, built with debug assertions "
+            "and overflow checks so that an out-of-range unchecked access aborts: every call must return Ok and the worker "
+            "must survive; the model must predict every crash of the real code at the same step (correspondence). "
+            "35% constant-ratio, 35% calm, 30% arbitrary in-range ratio schedules. distinct = (config, feature set); "
+            "non-trivial = >= 1 ratio or chunk change, or a masked or partial call")
+    assumptions = COMMON_ASSUME + ["safety inside realfft/rustfft is outside the model",
+                                   "fixed-input types under non-calm ratio schedules are the recorded findings D3/D4 "
+                                   "(witness class evaluated per history, model must predict the same failure)"]
+    n_quick = 260
+    n_thorough = 12000
+
+    def scenarios(self, rng):
+        return valid_mix(self, rng, self.n)
+
+    def nontrivial(self, h):
+        return bool(set(h.meta.get("feats", [])) & {"ratio-ramp", "ratio-step", "chunk", "part", "wrap"})
+
+    def oracle(self, h):
+        out = []
+        for k, slot, name, t, fr, fm, info, gb in walk(h):
+            if fr is None:
+                continue
+            st = fr["status"]
+            if st == "skip":
+                break
+            if name == "new":
+                if st != "ok":
+                    out.append(viol("C03", h, k, info, "constructor:" + st.split(" ")[0], {"got": h.real[k][:200]}))
+                    break
+                continue
+            if st.startswith("ok"):
+                continue
+            clause = st.split(" ")[0] if st in ("panic", "abort") else "err:" + (st.split(" ")[1] if " " in st else st)
+            v = viol("C03", h, k, info, clause, {"got": h.real[k][:200]},
+                     model_same=(fm is not None and fm["status"] == st))
+            out.append(v)
+            break
+        return out
+
+
+@register
+class C04(Prop):
+    pid = "C04"
+    rule = ("same valid histories as C03; at every step input_frames_next <= input_frames_max and output_frames_next <= "
+            "output_frames_max; every Ok processing call returns in == input_frames_next() read before the call, out <= "
+            "output_frames_next() (== for fixed-output and synchronous types), writes exactly `out` frames (sentinel-filled "
+            "buffers) and, with allocate-sized buffers, never fails. distinct = (config, feature set)")
+    assumptions = COMMON_ASSUME
+    n_quick = 260
+    n_thorough = 12000
+
+    def scenarios(self, rng):
+        return valid_mix(self, rng, self.n)
+
+    def nontrivial(self, h):
+        return bool(set(h.meta.get("feats", [])) & {"ratio-ramp", "ratio-step", "chunk", "part"})
+
+    def oracle(self, h):
+        out = []
+        for k, slot, name, t, fr, fm, info, gb in walk(h):
+            if fr is None or info is None:
+                continue
+            st = fr["status"]
+            if st in ("skip", "panic", "abort"):
+                break
+            g = fr["g"]
+            ms = (fm is not None and fm["g"] == g)
+            if g is not None:
+                if g[0] > g[1]:
+                    out.append(viol("C04", h, k, info, "in-next-exceeds-max", {"getters": g}, model_same=ms))
+                    break
+                if g[2] > g[3]:
+                    out.append(viol("C04", h, k, info, "out-next-exceeds-max", {"getters": g}, model_same=ms))
+                    break
+            if name in ("proc", "part") and st.startswith("ok") and gb is not None:
+                a = st.split()
+                nin, nout = int(a[1]), int(a[2])
+                if nin != gb[0]:
+                    out.append(viol("C04", h, k, info, "consumed-differs-from-next", {"in": nin, "next": gb[0]}))
+                    break
+                if nout > gb[2]:
+                    out.append(viol("C04", h, k, info, "out-exceeds-next", {"out": nout, "next": gb[2]},
+                                    model_same=(fm is not None and fm["status"] == st)))
+                    break
+                if info.kind in ("fastout", "sincout", "fftin", "fftout", "fftio") and nout != gb[2]:
+                    out.append(viol("C04", h, k, info, "out-differs-from-next", {"out": nout, "next": gb[2]}))
+                    break
+                if fr["u"] == "0":
+                    out.append(viol("C04", h, k, info, "wrote-beyond-reported-count", {"obs": h.real[k][:200]}))
+                    break
+            if name in ("procw", "partw") and st.startswith("ok") and gb is not None:
+                lens = [int(x) for x in st.split()[1].split(",")] if len(st.split()) > 1 else []
+                if any(l > gb[2] for l in lens):
+                    out.append(viol("C04", h, k, info, "wrapper-returned-more-than-next", {"lens": lens, "next": gb[2]}))
+                    break
+        return out
+
+
+# ------------------------------------------------------------------------------------------ C07
+def fft_sizes(ri, ro, wanted, by_output):
+    g = math.gcd(ri, ro)
+    minchunk = (ro if by_output else ri) // g
+    k = max(1, -(-wanted // minchunk))
+    return k * ri // g, k * ro // g
+
+
+@register
+class C07(Prop):
+    pid = "C07"
+    rule = ("constant-ratio streams on all seven types: many processing calls (quick: up to 400 per history, thorough: up to "
+            "20000, including thousands of 1-frame chunks), random chunk-size schedules on the sinc types, partial and wrapper "
+            "calls mixed in; after every call |r*total_in - total_out| must stay within the constant of the statement "
+            "(and within the tighter constant of the theorem), FFT types: 0 <= total_in*rate_out - total_out*rate_in < one "
+            "block, == 0 for FftFixedInOut, whose input size is the least admissible size >= the request. "
+            "distinct = (config, chunk schedule class)")
+    assumptions = COMMON_ASSUME + ["accumulated f64 rounding of idx += t over very long streams is measured, not proved"]
+    n_quick = 120
+    n_thorough = 1200
+
+    def scenarios(self, rng):
+        hs = []
+        for i in range(self.n):
+            small = rng.random() < 0.4
+            cfg = gen.gen_cfg(rng, max_chunk=(8 if small else 300), probe=True)
+            nops = rng.randint(40, 400) if self.tier == "quick" else rng.randint(200, 20000 if small else 3000)
+            ops = [cfg.new(0)]
+            feats = set()
+            for _ in range(nops):
+                c = rng.random()
+                if c < 0.08 and cfg.kind in ("sincin", "sincout"):
+                    ops.append(f"0 chunk {rng.randint(1, cfg.chunk)}")
+                    feats.add("chunk")
+                elif c < 0.12:
+                    ops.append("0 part - none m z")
+                    feats.add("part")
+                else:
+                    ops.append(f"0 proc - n {rng.choice(['n', 'm'])} z")
+            if small:
+                feats.add("tiny-chunks")
+            hs.append(History(ops, {"cfg": cfg.line, "kind": cfg.kind, "ty": cfg.ty, "feats": sorted(feats)}))
+        return hs
+
+    def nontrivial(self, h):
+        return len(h.ops) > 30
+
+    def oracle(self, h):
+        from fractions import Fraction
+        out = []
+        worst = 0.0
+        for k, slot, name, t, fr, fm, info, gb in walk(h):
+            if fr is None or info is None or not fr["status"].startswith("ok"):
+                if fr is not None and fr["status"] in ("panic", "abort", "skip"):
+                    break
+                continue
+            if name not in ("proc", "part"):
+                continue
+            a = fr["status"].split()
+            tin = info.total_in + int(a[1])
+            tout = info.total_out + int(a[2])
+            if info.kind in gen.ASYNC:
+                r = Fraction(info.orig)
+                dev = r * tin - tout
+                bound = r * (info.L + 1 / r + 3) + 3
+                worst = max(worst, float(abs(dev)))
+                if abs(dev) > bound:
+                    out.append(viol("C07", h, k, info, "frame-accounting-drift",
+                                    {"total_in": tin, "total_out": tout, "ratio": info.orig, "deviation": float(dev),
+                                     "bound": float(bound)}))
+                    break
+                # the theorem's constant (exact arithmetic) plus a rounding allowance of 1 frame
+                tb = r * (info.L // 2 + 1 + math.ceil(1 / r)) + 1 if info.kind in ("fastin", "sincin") else r * (info.L // 2 + 1) + 1
+                if dev < -1 or dev > tb + 1:
+                    out.append(viol("C07", h, k, info, "outside-theorem-constant",
+                                    {"total_in": tin, "total_out": tout, "deviation": float(dev), "theorem_bound": float(tb)}))
+                    break
+            else:
+                ri, ro = info.ri, info.ro
+                d = tin * ro - tout * ri
+                if info.kind == "fftio":
+                    if d != 0:
+                        out.append(viol("C07", h, k, info, "fftio-nonzero-difference", {"in": tin, "out": tout}))
+                        break
+                    g = math.gcd(ri, ro)
+                    fi = fr["g"][0]
+                    want = info.chunk0
+                    if fi % (ri // g) != 0 or fi < want or (fi - ri // g >= max(want, 1)):
+                        out.append(viol("C07", h, k, info, "fftio-size-not-least-admissible",
+                                        {"fft_in": fi, "requested": want, "unit": ri // g}))
+                        break
+                else:
+                    sub = int(info.p[3])
+                    fi, fo = fft_sizes(ri, ro, info.chunk0 // sub, info.kind == "fftout")
+                    if d < 0 or d >= fi * ro:
+                        out.append(viol("C07", h, k, info, "fft-difference-out-of-range",
+                                        {"in": tin, "out": tout, "diff": d, "block": fi * ro}))
+                        break
+        h.meta["worst_dev"] = worst
+        return out
+
+
+# ------------------------------------------------------------------------------------------ streams from dumps
+def streams(h, slots=None):
+    """per slot: list over channels of concatenated output frames (floats), from `dump`ed proc/part/procw ops"""
+    out = {}
+    tys = {}
+    for k, slot, name, t, fr, fm, info, gb in walk(h):
+        if name == "new" and info is not None:
+            out[slot] = None
+            tys[slot] = info.ty
+            continue
+        if fr is None or name not in ("proc", "part", "procw", "partw") or not fr["status"].startswith("ok"):
+            continue
+        if fr["d"] is None:
+            continue
+        if out.get(slot) is None:
+            out[slot] = [[] for _ in fr["d"]]
+        for c, tok in enumerate(fr["d"]):
+            v = proto.decode_dump(tok, tys.get(slot, "f64"))
+            if v is not None:
+                out[slot][c].extend(v)
+    return out
+
+
+def first_mismatch(a, b, tol):
+    n = min(len(a), len(b))
+    peak = max([1.0] + [abs(x) for x in a[:n]])
+    for j in range(n):
+        if not abs(a[j] - b[j]) <= tol * peak:
+            return j
+    return None
+
+
+# ------------------------------------------------------------------------------------------ C05
+@register
+class C05(Prop):
+    pid = "C05"
+    rule = ("twin streams on the real crate, outputs dumped and concatenated: (a) the same asynchronous resampler with two "
+            "different chunk sizes in [1,4096]; (b) FixedIn vs FixedOut of the same algorithm and filter; (c) the sinc types "
+            "with a random set_chunk_size schedule against a constant chunking; (d) FftFixedIn / FftFixedOut / FftFixedInOut "
+            "with (chunk, sub_chunks) resolving to the same FFT sizes, compared bit for bit; all with the same input signal "
+            "(noise, sine, index), f32 and f64, real interpolators and the probe. The common prefix must agree to rounding. "
+            "distinct = (kind pair, config, chunk pair); non-trivial = the two chunkings differ")
+    assumptions = COMMON_ASSUME + ["position arithmetic is re-associated by the carry between chunks: streams are compared "
+                                   "with a tolerance of 1e-9 (f64) / 2e-4 (f32) times the peak; FFT streams bit for bit"]
+    n_quick = 110
+    n_thorough = 2500
+
+    def scenarios(self, rng):
+        hs = []
+        for i in range(self.n):
+            c = rng.random()
+            total = rng.randint(300, 3000 if self.tier == "quick" else 20000)
+            sig = rng.choice(["r%d" % rng.randint(0, 999), "s%s" % hx(rng.uniform(0.001, 0.2)), "i"])
+            if c < 0.6:
+                kind = rng.choice(gen.ASYNC)
+                cfg = gen.gen_cfg(rng, kinds=[kind], nch=rng.choice([1, 2]), probe=rng.random() < 0.4, max_chunk=4096,
+                                  sinc_lens=[16, 32, 64, 128])
+                p = cfg.line.split()
+                ci = 5 if kind.startswith("fast") else 9
+                ca = int(p[ci])
+                cb = rng.choice([1, 2, 3, 7, 16, 64, 100, 255, 1024, 4096, rng.randint(1, 4096)])
+                variant = rng.random() < 0.35
+                p2 = list(p)
+                p2[ci] = str(cb)
+                if variant:
+                    p2[1] = {"fastin": "fastout", "fastout": "fastin", "sincin": "sincout", "sincout": "sincin"}[kind]
+                ops = [f"0 new {' '.join(p)}", f"1 new {' '.join(p2)}"]
+                feats = {"variant" if variant else "rechunk"}
+                # the ratio decides how many calls are needed: just call until roughly `total` input frames went in
+                ratio = cfg.ratio
+                for slot, chunk, kd in ((0, ca, p[1]), (1, cb, p2[1])):
+                    per = chunk if kd.endswith("in") else max(1, int(chunk / ratio))
+                    ncalls = max(2, min(4000, total // max(1, per)))
+                    for j in range(ncalls):
+                        if kd.startswith("sinc") and rng.random() < 0.1 and slot == 0:
+                            ops.append(f"{slot} chunk {rng.randint(1, chunk)}")
+                            feats.add("set_chunk_size")
+                        ops.append(f"{slot} proc - n m {sig} dump")
+                hs.append(History(ops, {"cfg": cfg.line, "kind": kind, "ty": cfg.ty, "feats": sorted(feats),
+                                        "pair": (p[1], p2[1]), "chunks": (ca, cb), "fft": False,
+                                        "exact": cfg.line.endswith("probe") and sig == "i"}))
+            else:
+                ri, ro = rng.choice([(44100, 48000), (48000, 44100), (2, 3), (3, 2), (147, 160), (16000, 48000), (7, 5), (1, 1)])
+                g = math.gcd(ri, ro)
+                kmul = rng.choice([1, 2, 3, 5]) if max(ri, ro) // g > 100 else rng.choice([1, 4, 16, 64, 100])
+                fi, fo = kmul * ri // g, kmul * ro // g
+                ty = rng.choice(["f64", "f32"])
+                nch = rng.choice([1, 2])
+                s1, s2 = rng.choice([1, 2, 3]), rng.choice([1, 2, 4])
+                lines = [f"{ty} fftio {ri} {ro} {fi} {nch}",
+                         f"{ty} fftin {ri} {ro} {fi * s1} {s1} {nch}",
+                         f"{ty} fftout {ri} {ro} {fo * s2} {s2} {nch}"]
+                ops = [f"{k} new {l}" for k, l in enumerate(lines)]
+                for slot, per in ((0, fi), (1, fi * s1), (2, fi)):
+                    for j in range(max(2, min(400, total // per))):
+                        ops.append(f"{slot} proc - n m {sig} dump")
+                hs.append(History(ops, {"cfg": lines[1], "kind": "fft", "ty": ty, "feats": ["fft-variants"],
+                                        "pair": ("fftio", "fftin", "fftout"), "chunks": (fi, fi * s1, fo * s2), "fft": True}))
+        return hs
+
+    def distinct_key(self, h):
+        return (h.meta["pair"], h.meta["cfg"], h.meta["chunks"])
+
+    def nontrivial(self, h):
+        return len(set(h.meta["chunks"])) > 1 or h.meta["pair"][0] != h.meta["pair"][1]
+
+    def oracle(self, h):
+        out = []
+        st = streams(h)
+        infos = {}
+        for k, slot, name, t, fr, fm, info, gb in walk(h):
+            infos[slot] = info
+            if fr is not None and fr["status"] in ("panic", "abort"):
+                return out     # C03's business
+        if any(v is None for v in st.values()):
+            return out
+        ty = h.meta["ty"]
+        if h.meta.get("fft"):
+            tol = 0.0
+        else:
+            tol = 2e-4 if ty == "f32" else 1e-9
+        ref = st["0"]
+        # Nearest kernels are discontinuous in the evaluation instant: where the exact instant sits on a tie, the
+        # rounding of the position legitimately picks either neighbour. Those frames are skipped.
+        ties = set()
+        i0 = infos.get("0")
+        sinc_kind = i0 is not None and i0.kind.startswith("sinc")
+        if i0 is not None and i0.kind in gen.ASYNC:
+            from fractions import Fraction
+            nearest_fast = i0.kind.startswith("fast") and i0.p[2] == "4"
+            if nearest_fast or sinc_kind:
+                tt = 1 / Fraction(i0.orig)
+                f_ = int(i0.p[4]) if sinc_kind else 1
+                half = Fraction(1, 2) if (sinc_kind and i0.p[2] == "3") else 0
+                n_frames = max(len(x) for x in ref) if ref else 0
+                for j in range(n_frames):
+                    tau = (Fraction(-(i0.L // 2)) + (j + 1) * tt) * f_ + half
+                    if abs(tau - round(tau)) < Fraction(1, 10 ** 6):
+                        ties.add(j)
+            if i0.p[-1] == "probe":
+                tol = max(tol, 1e-6)     # the probe's integer weights are rough in the sub-filter index
+        for slot in sorted(st):
+            if slot == "0":
+                continue
+            for c in range(min(len(ref), len(st[slot]))):
+                a_, b_ = list(ref[c]), list(st[slot][c])
+                tie_hit = None
+                for j in sorted(ties):
+                    if j < len(a_) and j < len(b_):
+                        peak = max(1.0, abs(a_[j]))
+                        if tie_hit is None and not abs(a_[j] - b_[j]) <= tol * peak:
+                            tie_hit = j
+                        b_[j] = a_[j]
+                if tie_hit is not None and sinc_kind and i0.p[2] != "3":
+                    out.append({"property": "C05", "kind": h.meta["kind"], "ty": ty, "clause": "streams-differ-at-position-tie",
+                                "calm": True, "step": len(h.ops) - 1, "op": h.ops[-1],
+                                "detail": {"frame": tie_hit, "channel": c, "slot0": ref[c][tie_hit],
+                                           "slot" + slot: st[slot][c][tie_hit], "pair": h.meta["pair"],
+                                           "chunks": h.meta["chunks"]},
+                                "ops": h.ops, "meta": h.meta, "real": "", "model": None, "model_predicts": True})
+                    return out
+                j = first_mismatch(a_, b_, tol)
+                if j is not None:
+                    out.append({"property": "C05", "kind": h.meta["kind"], "ty": ty, "clause": "streams-differ", "calm": True,
+                                "step": len(h.ops) - 1, "op": h.ops[-1],
+                                "detail": {"frame": j, "channel": c, "slot0": ref[c][j], "slot" + slot: st[slot][c][j],
+                                           "pair": h.meta["pair"], "chunks": h.meta["chunks"]},
+                                "ops": h.ops, "meta": h.meta, "real": "", "model": None, "model_predicts": None})
+                    return out
+        h.meta["compared"] = min(len(ref[0]), min(len(st[s][0]) for s in st))
+        return out
+
+
+# ------------------------------------------------------------------------------------------ C06
+@register
+class C06(Prop):
+    pid = "C06"
+    rule = ("index signal x[n] = n through FastFixedIn/Out (Linear) and SincFixedIn/Out with the linear probe interpolator "
+            "(all four blends): the dumped outputs ARE the evaluation instants in global input time (plus a constant). Across "
+            "random in-range ratio schedules (stepped and ramped, calm and non-calm) the instants must be strictly increasing, "
+            "their spacing must lie between the reciprocals of the old and the new ratio, a stepped change must apply from the "
+            "first frame of the next chunk, a ramp must move monotonically and end at 1/new. The model's stale-read flag (reads "
+            "beyond the frames loaded) is checked on every call of every history. distinct = (config, schedule); "
+            "non-trivial = >= 1 accepted ratio change followed by >= 1 call")
+    assumptions = COMMON_ASSUME + ["instants are observed through f64 interpolation of the index signal: spacing tolerance 1e-7 "
+                                   "relative", "fixed-input ramps overshoot the interval (finding D11)"]
+    n_quick = 160
+    n_thorough = 5000
+
+    def scenarios(self, rng):
+        hs = []
+        for i in range(self.n):
+            kind = rng.choice(gen.ASYNC)
+            if kind.startswith("fast"):
+                cfg = gen.gen_cfg(rng, kinds=[kind], ty="f64", nch=1, max_chunk=300)
+                p = cfg.line.split()
+                p[4] = "3"
+                cfg.line = " ".join(p)
+            else:
+                cfg = gen.gen_cfg(rng, kinds=[kind], ty="f64", nch=1, max_chunk=300, probe=True, sinc_lens=[8, 16, 32, 64],
+                                  interp=rng.choice([0, 1, 2]))
+                cfg.line = cfg.line[:-len("probe")] + "lprobe"
+            rc = rng.choice(["calm", "any", "any"])
+            ops = [cfg.new(0)]
+            feats = set()
+            for _ in range(rng.randint(4, 30)):
+                c = rng.random()
+                if c < 0.3 and cfg.maxrel > 1:
+                    r, rel = gen.in_range_ratio(rng, cfg, calm=(rc == "calm"))
+                    ramp = rng.choice([0, 1])
+                    ops.append(f"0 ratio {hx(r)} {ramp}")
+                    feats.add("ratio-ramp" if ramp else "ratio-step")
+                elif c < 0.36 and kind.startswith("sinc"):
+                    ops.append(f"0 chunk {rng.randint(1, cfg.chunk)}")
+                    feats.add("chunk")
+                else:
+                    ops.append("0 proc - n m i dump")
+            hs.append(History(ops, {"cfg": cfg.line, "kind": kind, "ty": "f64", "feats": sorted(feats), "rc": rc}))
+        # every generic valid history also contributes its stale-read flags
+        hs += valid_mix(self, rng, self.n // 2)
+        return hs
+
+    def nontrivial(self, h):
+        return bool(set(h.meta.get("feats", [])) & {"ratio-ramp", "ratio-step"})
+
+    def oracle(self, h):
+        out = []
+        prev = None          # last instant of the previous call
+        ratio = target = None
+        for k, slot, name, t, fr, fm, info, gb in walk(h):
+            if fr is None or info is None:
+                continue
+            if fr["status"] in ("panic", "abort", "skip"):
+                break
+            # model-level: reads beyond the frames supplied for this call
+            if fm is not None and fm.get("s") == "1" and fr["status"].startswith("ok") and name in ("proc", "part", "procw", "partw"):
+                v = viol("C06", h, k, info, "stale-read", {"model": h.model[k][-60:]}, model_same=True)
+                cls = "other"
+                if info.kind == "sincout":
+                    it, f_ = int(info.p[2]), int(info.p[4])
+                    if (it in (0, 1) and f_ <= 2) or (it == 2 and f_ <= 1):
+                        cls = "sincout:integer-position-overshoot"
+                v["class"] = cls
+                out.append(v)
+                break
+            if name == "new":
+                ratio = target = info.orig if info.kind in gen.ASYNC else None
+                prev = None
+                continue
+            if "rc" not in h.meta:
+                continue
+            if name in ("ratio", "rel") and fr["status"] == "ok":
+                r = unhx(t[2]) if name == "ratio" else info.orig * unhx(t[2])
+                if t[3] != "1":
+                    ratio = r
+                target = r
+                continue
+            if name == "reset":
+                ratio = target = info.orig
+                prev = None
+                continue
+            if name != "proc" or not fr["status"].startswith("ok") or not fr["d"]:
+                continue
+            vals = proto.decode_dump(fr["d"][0], "f64")
+            t0, t1 = 1.0 / ratio, 1.0 / target
+            ramp = ratio != target
+            ratio = target
+            if not vals:
+                continue
+            lo, hi = min(t0, t1), max(t0, t1)
+            seq = ([prev] if prev is not None else []) + vals
+            # instants before time 1 have a blend point (or the probe's cell) in the zero pre-roll, where the index signal
+            # has its kink: they are not instants of a linear signal
+            for a, b in zip(seq, seq[1:]):
+                if a < 1.0:
+                    continue
+                d = b - a
+                tolr = 1e-7 * max(1.0, abs(b))
+                # sinc types: is one of the two instants on a tie of the sub-filter grid (finding D16)?
+                tie = False
+                if info.kind.startswith("sinc"):
+                    f_ = int(info.p[4])
+                    tie = any(abs(x * f_ - round(x * f_)) < 1e-6 for x in (a, b))
+                if not d > 0:
+                    v = viol("C06", h, k, info, "instants-not-increasing", {"a": a, "b": b})
+                    v["class"] = "sinc:position-tie" if tie else "other"
+                    out.append(v)
+                    return out
+                if d < lo - tolr or d > hi + tolr:
+                    v = viol("C06", h, k, info, "spacing-outside-reciprocals",
+                             {"spacing": d, "lo": lo, "hi": hi, "ramp": ramp, "t_old": t0, "t_new": t1})
+                    v["class"] = ("fixed-in:ramp" if (ramp and info.kind in ("fastin", "sincin")) else
+                                  "sinc:position-tie" if tie else "other")
+                    out.append(v)
+                    return out
+            if ramp and len(vals) >= 3:
+                ds = [b - a for a, b in zip(vals, vals[1:]) if a >= 1.0]
+                sgn = 1 if t1 >= t0 else -1
+                for a, b in zip(ds, ds[1:]):
+                    if sgn * (b - a) < -1e-7 * max(1.0, abs(a)):
+                        out.append(viol("C06", h, k, info, "ramp-not-monotone", {"spacings": ds[:6]}))
+                        return out
+            prev = vals[-1]
+        return out
+
+
+# ------------------------------------------------------------------------------------------ C11
+@register
+class C11(Prop):
+    pid = "C11"
+    rule = ("slot 0: an n-channel resampler (n in 1..8) with a constant random mask (all-false included), inactive channels "
+            "passed as empty slices, sentinel-filled outputs; slot 1: the same n-channel resampler without a mask; slots 2..: n "
+            "single-channel resamplers with the same parameters fed channel c's data. Same call history on all. Active channels "
+            "of slot 0 must equal slot 1 and the single-channel twins bit for bit, returned counts and getters must be equal, "
+            "inactive outputs must stay untouched. All seven types, f32/f64. distinct = (config, mask)")
+    assumptions = COMMON_ASSUME
+    n_quick = 90
+    n_thorough = 2500
+
+    def scenarios(self, rng):
+        hs = []
+        for i in range(self.n):
+            nch = rng.randint(1, 8)
+            cfg = gen.gen_cfg(rng, nch=nch, max_chunk=200, probe=rng.random() < 0.6)
+            mask = "".join(rng.choice("01") for _ in range(nch))
+            if rng.random() < 0.08:
+                mask = "0" * nch
+            p = cfg.line.split()
+            one = list(p)
+            if cfg.kind in ("fastin", "fastout"):
+                one[6] = "1"
+            elif cfg.kind in ("sincin", "sincout"):
+                one[10] = "1"
+            else:
+                one[-1] = "1"
+            ops = [cfg.new(0), cfg.new(1)]
+            for c in range(nch):
+                ops.append(f"{2 + c} new {' '.join(one)}")
+            sg = gen.rand_sig(rng)
+            feats = {"mask:" + mask}
+            for _ in range(rng.randint(2, 12)):
+                r = rng.random()
+                if r < 0.75:
+                    ops.append(f"0 proc {mask} n m {sg} em")
+                    ops.append(f"1 proc - n m {sg}")
+                    for c in range(nch):
+                        ops.append(f"{2 + c} proc - n m {sg} co={c}")
+                elif r < 0.9 and cfg.kind in gen.ASYNC and cfg.maxrel > 1:
+                    rr, rel = gen.in_range_ratio(rng, cfg, calm=True)
+                    ramp = rng.choice([0, 1])
+                    for s in range(2 + nch):
+                        ops.append(f"{s} ratio {hx(rr)} {ramp}")
+                    feats.add("ratio")
+                elif cfg.kind in ("sincin", "sincout"):
+                    n = rng.randint(1, cfg.chunk)
+                    for s in range(2 + nch):
+                        ops.append(f"{s} chunk {n}")
+                    feats.add("chunk")
+            hs.append(History(ops, {"cfg": cfg.line, "kind": cfg.kind, "ty": cfg.ty, "feats": sorted(feats),
+                                    "mask": mask, "nch": nch}))
+        return hs
+
+    def distinct_key(self, h):
+        return (h.meta["cfg"], h.meta["mask"])
+
+    def nontrivial(self, h):
+        return h.meta["nch"] >= 2
+
+    def oracle(self, h):
+        out = []
+        nch = h.meta["nch"]
+        mask = h.meta["mask"]
+        group = {}
+        infos = {}
+        k = 0
+        ops = h.ops
+        recs = []
+        for kk, slot, name, t, fr, fm, info, gb in walk(h):
+            infos[slot] = info
+            recs.append((kk, slot, name, fr))
+            if fr is not None and fr["status"] in ("panic", "abort"):
+                return out
+        i = 0
+        while i < len(recs):
+            kk, slot, name, fr = recs[i]
+            if name == "proc" and slot == "0" and i + 1 + nch < len(recs) + 0:
+                grp = recs[i:i + 2 + nch]
+                if len(grp) < 2 + nch or any(g[3] is None for g in grp):
+                    break
+                f0, f1 = grp[0][3], grp[1][3]
+                if not (f0["status"].startswith("ok") and f1["status"].startswith("ok")):
+                    i += 2 + nch
+                    continue
+                if f0["status"] != f1["status"] or f0["g"][:5] != f1["g"][:5]:
+                    out.append(viol("C11", h, kk, infos["0"], "mask-changes-counts", {"masked": f0["status"], "unmasked": f1["status"]}))
+                    return out
+                if f0["u"] != "1":
+                    out.append(viol("C11", h, kk, infos["0"], "inactive-output-written", {"obs": h.real[kk][:200]}))
+                    return out
+                for c in range(nch):
+                    fc = grp[2 + c][3]
+                    if fc["status"] != f1["status"]:
+                        out.append(viol("C11", h, kk, infos["0"], "single-channel-counts-differ", {"n": f1["status"], "1": fc["status"]}))
+                        return out
+                    if f1["d"] and fc["d"] and f1["d"][c] != fc["d"][0]:
+                        out.append(viol("C11", h, kk, infos["0"], "channel-depends-on-others",
+                                        {"channel": c, "n_channel": f1["d"][c], "single": fc["d"][0]}))
+                        return out
+                    if mask[c] == "1":
+                        if f0["d"][c] != f1["d"][c]:
+                            out.append(viol("C11", h, kk, infos["0"], "mask-changes-active-output",
+                                            {"channel": c, "masked": f0["d"][c], "unmasked": f1["d"][c]}))
+                            return out
+                    elif f0["d"][c] != "-":
+                        out.append(viol("C11", h, kk, infos["0"], "inactive-channel-has-output", {"channel": c}))
+                        return out
+                i += 2 + nch
+            else:
+                i += 1
+        return out
+
+
+# ------------------------------------------------------------------------------------------ C17
+@register
+class C17(Prop):
+    pid = "C17"
+    rule = ("twin slots with identical parameters and call history, slot 0 instantiated for f32, slot 1 for f64, all seven "
+            "types, valid histories with ratio/chunk changes, masks, partial calls: statuses, returned counts and all getters "
+            "must be identical at every step; dumped outputs must agree within 64*eps_f32*(peak+1) (sinc/FFT: filter gain "
+            "included in the peak). distinct = (config, feature set)")
+    assumptions = COMMON_ASSUME + ["the numeric closeness is measured, not proved"]
+    n_quick = 120
+    n_thorough = 3000
+
+    def scenarios(self, rng):
+        hs = []
+        for i in range(self.n):
+            cfg = gen.gen_cfg(rng, ty="f32", max_chunk=300, probe=rng.random() < 0.3)
+            base = gen.gen_valid_history(rng, cfg, rng.randint(3, 20), ratio_changes="calm", masks="const",
+                                         dump=True, sig=rng.choice(["r%d" % rng.randint(0, 999), "s%s" % hx(rng.uniform(0.001, 0.2))]))
+            line64 = cfg.line.replace("f32", "f64", 1)
+            ops = [f"0 new {cfg.line}", f"1 new {line64}"]
+            for op in base.ops[1:]:
+                ops.append(op)
+                ops.append(retarget(op, 1))
+            hs.append(History(ops, {"cfg": cfg.line, "kind": cfg.kind, "ty": "f32/f64", "feats": base.meta["feats"]}))
+        return hs
+
+    def oracle(self, h):
+        out = []
+        infos = {}
+        for kk, slot, name, t, fr, fm, info, gb in walk(h):
+            infos[slot] = info
+        k = 2
+        while k + 1 < len(h.ops):
+            ra, rb = h.real[k], h.real[k + 1]
+            if ra in ("skip",) or rb in ("skip",):
+                break
+            fa, fb = fields(ra), fields(rb)
+            if fa["status"] != fb["status"] or fa["g"] != fb["g"]:
+                out.append(viol("C17", h, k, infos.get("0"), "control-differs-between-f32-and-f64",
+                                {"f32": ra[:160], "f64": rb[:160]}))
+                break
+            if fa["d"] and fb["d"] and fa["status"].startswith("ok"):
+                for c, (da, db) in enumerate(zip(fa["d"], fb["d"])):
+                    va, vb = proto.decode_dump(da, "f32"), proto.decode_dump(db, "f64")
+                    if va is None or vb is None:
+                        continue
+                    peak = max([1.0] + [abs(x) for x in vb])
+                    for j, (x, y) in enumerate(zip(va, vb)):
+                        if not abs(x - y) <= 64 * 2.0 ** -23 * peak:
+                            out.append(viol("C17", h, k, infos.get("0"), "f32-output-far-from-f64",
+                                            {"channel": c, "frame": j, "f32": x, "f64": y, "peak": peak}))
+                            return out
+            k += 2
+        return out
